@@ -263,10 +263,10 @@ def shared_body(c):
 
 def subchecks(tier):
     return [
-        Sub("random", body, strategy=phylo.like_case, quick=1500, thorough=30000, pretags=pretags),
+        Sub("random", body, strategy=phylo.like_case, quick=1500, thorough=80000, pretags=pretags),
         Sub("all_topologies", body, enumerate=_topology_cases, expand=expand_topology_case, exhaustive=(tier == "thorough"), pretags=pretags),
-        Sub("large", body, strategy=large_case, quick=150, thorough=3000, pretags=pretags),
-        Sub("shared", shared_body, strategy=shared_case, quick=200, thorough=3000, pretags=pretags),
-        Sub("indices", indices_body, strategy=indices_case, quick=200, thorough=3000, pretags=pretags),
+        Sub("large", body, strategy=large_case, quick=150, thorough=10000, pretags=pretags),
+        Sub("shared", shared_body, strategy=shared_case, quick=200, thorough=8000, pretags=pretags),
+        Sub("indices", indices_body, strategy=indices_case, quick=200, thorough=8000, pretags=pretags),
         Sub("audit_oracle", audit_body, strategy=lambda: phylo.like_case(families=("nucleotide", "general"), nmax=6), quick=40, thorough=400),
     ]
